@@ -30,7 +30,7 @@ func caseGen() *rapid.Generator[Case] {
 		c := Case{Creator: rapid.SampledFrom([]string{"core", "core", "csv", "texttable", "markdown"}).Draw(t, "creator")}
 		n := rapid.IntRange(2, max).Draw(t, "n")
 		for i := 0; i < n; i++ {
-			k := rapid.SampledFrom([]string{"op", "op", "op", "op", "reg", "reg", "reg", "reg", "render", "render", "seedcell", "dense", "hdrcapture", "update"}).Draw(t, "step")
+			k := rapid.SampledFrom([]string{"op", "op", "op", "op", "reg", "reg", "reg", "reg", "render", "render", "seedcell", "dense", "hdrcapture", "update", "copyattached"}).Draw(t, "step")
 			st := Step{K: k}
 			switch k {
 			case "hdrcapture":
@@ -76,6 +76,10 @@ func caseGen() *rapid.Generator[Case] {
 				st.When = rapid.IntRange(0, 3).Draw(t, "when")
 				st.N = rapid.IntRange(1, 11).Draw(t, "n")
 				st.Err = rapid.IntRange(0, 2).Draw(t, "err") == 0
+			case "copyattached":
+				st.Ref = rapid.IntRange(0, 7).Draw(t, "ref")
+				st.Col = rapid.IntRange(0, 7).Draw(t, "dst")
+				st.Target = rapid.IntRange(0, 3).Draw(t, "cell")
 			case "seedcell":
 				st.Ref = rapid.IntRange(0, 7).Draw(t, "ref")
 				st.Col = rapid.IntRange(0, 7).Draw(t, "ref2")
